@@ -204,6 +204,31 @@ func allShards(d *meta.Data) []meta.ShardInfo {
 	return out
 }
 
+// shardsHolding counts the shards that hold at least one point of the
+// measurement (on some owner).
+func shardsHolding(d *meta.Data, pts []point, measurement string) int {
+	rp, _ := d.RetentionPolicy(storesim.DB, storesim.RP)
+	owned := map[uint64]bool{}
+	for _, s := range allShards(d) {
+		if len(s.Owners) > 0 {
+			owned[s.ID] = true
+		}
+	}
+	seen := map[uint64]bool{}
+	for _, q := range pts {
+		mp, _ := mkPoint(q)
+		if string(mp.Name()) != measurement {
+			continue
+		}
+		if g := rp.ShardGroupByTimestamp(mp.Time()); g != nil {
+			if sh := g.ShardFor(mp); owned[sh.ID] {
+				seen[sh.ID] = true
+			}
+		}
+	}
+	return len(seen)
+}
+
 // load writes every point into the store of every owner of its shard.
 func load(run *core.Run, c *clustersim.Cluster, pts []point) bool {
 	rp, _ := c.Data.RetentionPolicy(storesim.DB, storesim.RP)
@@ -344,8 +369,20 @@ func execStmt(n *clustersim.Node, stmt string) (string, error) {
 			return "", r.Err
 		}
 		// EXPLAIN output names sizes of files and is layout specific: keep only success
+		// (sizes, files, blocks); the number of shards the estimate was summed
+		// over is not: every shard of the query once
 		if strings.HasPrefix(stmt, "EXPLAIN") {
-			parts = append(parts, "explain-ok")
+			shards := "0"
+			for _, row := range r.Series {
+				for _, v := range row.Values {
+					if len(v) > 0 {
+						if t, ok := v[0].(string); ok && strings.HasPrefix(strings.TrimSpace(t), "NUMBER OF SHARDS:") {
+							shards = strings.TrimSpace(strings.TrimPrefix(strings.TrimSpace(t), "NUMBER OF SHARDS:"))
+						}
+					}
+				}
+			}
+			parts = append(parts, "explain-ok shards="+shards)
 			continue
 		}
 		for _, row := range r.Series {
@@ -536,6 +573,20 @@ func exec(run *core.Run, pl interface{}) {
 			run.Fail("harness-error", "", "reference failed for %q: %v", stmt, rerr)
 			return
 		}
+		explainAny := false
+		if strings.HasPrefix(stmt, "EXPLAIN") {
+			// The reference node has its own (coarser) shards: the cluster's
+			// estimate is held to the cluster's metadata - every shard that
+			// holds the measurement, once. Only with the disk-based index: the
+			// in-memory index is shared by the shards of a database on a node,
+			// so that "holds the measurement" depends on which owner is asked.
+			if p.Index == "tsi1" {
+				want = fmt.Sprintf("explain-ok shards=%d", shardsHolding(data, p.Points, "m0"))
+				run.Probe("explain-shard-count-checked")
+			} else {
+				explainAny = true
+			}
+		}
 		type res struct {
 			out string
 			err error
@@ -561,6 +612,9 @@ func exec(run *core.Run, pl interface{}) {
 			}
 			continue
 		}
+		if explainAny && strings.HasPrefix(r.out, "explain-ok") {
+			r.out = want
+		}
 		run.Probe("query-succeeded")
 		if len(kinds) > 0 {
 			run.Probe("query-succeeded-under-faults")
@@ -585,7 +639,9 @@ func exec(run *core.Run, pl interface{}) {
 			run.Fail("silently-incomplete-or-wrong-result", "storage-read-owner-with-disabled-shards-answers-with-nothing", "storage ReadFilter on node %d returned success but differs from the same read over the union of the data; a node whose shards are disabled took part (faults: %s; owners: %s)\n got: %s\nwant: %s", p.Coord, describeFaults(p), describeOwners(data), clip(r.out), clip(want))
 			continue
 		}
-		if r.out != want && askedFaulty && strings.HasPrefix(stmt, "SELECT") {
+		// an EXPLAIN of a statement plans it the same way and shares its defects
+		core := strings.TrimPrefix(stmt, "EXPLAIN ")
+		if r.out != want && askedFaulty && strings.HasPrefix(core, "SELECT") {
 			// An owner that is up but cannot read its shards was asked. The
 			// type lookup of a field has no error path (tsdb.Shards.MapType
 			// drops the shard's error and says "unknown"), so the coordinator
@@ -610,7 +666,7 @@ func exec(run *core.Run, pl interface{}) {
 		}
 		if r.out != want && !servable {
 			// some shard has no owner left that could serve it: the statement had to fail
-			run.Fail("success-although-shard-unservable", unservableSite(stmt, r.out, want), "stmt %q on node %d returned success although a shard has no reachable, healthy owner, and the result misses its data (faults: %s; owners: %s)\n got: %s\nwant: %s", stmt, p.Coord, describeFaults(p), describeOwners(data), clip(r.out), clip(want))
+			run.Fail("success-although-shard-unservable", unservableSite(core, strings.TrimPrefix(r.out, "explain-ok shards=0"), strings.TrimPrefix(want, "explain-ok ")), "stmt %q on node %d returned success although a shard has no reachable, healthy owner, and the result misses its data (faults: %s; owners: %s)\n got: %s\nwant: %s", stmt, p.Coord, describeFaults(p), describeOwners(data), clip(r.out), clip(want))
 			continue
 		}
 		if r.out != want {
